@@ -63,9 +63,12 @@ pub struct History {
     pub mode: u8,
     pub sessions: u8,
     pub ops: Vec<Op>,
+    /// a property index on "x" exists from the start (equality filters then take the planner's index path)
+    #[serde(default)]
+    pub index_x: bool,
 }
 
-pub const N_READ_KINDS: u8 = 15;
+pub const N_READ_KINDS: u8 = 17;
 
 fn op_strategy() -> impl Strategy<Value = Op> {
     let s = 0u8..4;
@@ -97,10 +100,10 @@ pub fn history_strategy(max_ops: usize) -> impl Strategy<Value = History> {
         ],
         0..7,
     );
-    (prop_oneof![2 => Just(0u8), 2 => Just(1u8), 3 => Just(2u8)], 2u8..=4, setup, proptest::collection::vec(op_strategy(), 1..max_ops))
-        .prop_map(|(mode, sessions, mut setup, ops)| {
+    (prop_oneof![2 => Just(0u8), 2 => Just(1u8), 3 => Just(2u8)], 2u8..=4, setup, proptest::collection::vec(op_strategy(), 1..max_ops), any::<bool>())
+        .prop_map(|(mode, sessions, mut setup, ops, index_x)| {
             setup.extend(ops);
-            History { mode, sessions, ops: setup }
+            History { mode, sessions, ops: setup, index_x }
         })
 }
 
@@ -846,6 +849,25 @@ impl World {
                     rows.push((vec![Ent::Node(id)], format!("{id}:out={out},in={inc}")));
                 }
             }
+            15 => {
+                // range filter on a plain scan (the planner's range path)
+                let v = i64::from(arg % 4);
+                for (id, nm) in &st.nodes {
+                    if nm.props.get("x").is_some_and(|x| *x > v) {
+                        rows.push((vec![Ent::Node(*id)], id.to_string()));
+                    }
+                }
+            }
+            16 => {
+                // label scan + range filter
+                let l = LABELS[arg as usize % 3];
+                let v = i64::from(n % 4);
+                for (id, nm) in &st.nodes {
+                    if nm.labels.contains(l) && nm.props.get("x").is_some_and(|x| *x >= v) {
+                        rows.push((vec![Ent::Node(*id)], id.to_string()));
+                    }
+                }
+            }
             12 => {
                 for t in &st.triples {
                     rows.push((vec![Ent::Triple(*t)], format!("http://v/s{t} http://v/p http://v/o{t}")));
@@ -982,6 +1004,15 @@ impl World {
                     }
                 }
             }
+            15 => {
+                let v = arg % 4;
+                rows = id_rows(self.exec_gql(si, &format!("MATCH (n) WHERE n.x > {v} RETURN id(n)"))?, "range-scan")?;
+            }
+            16 => {
+                let l = LABELS[arg as usize % 3];
+                let v = n % 4;
+                rows = id_rows(self.exec_gql(si, &format!("MATCH (n:{l}) WHERE n.x >= {v} RETURN id(n)"))?, "label-range-scan")?;
+            }
             12 => {
                 for r in self.exec_sparql(si, "SELECT ?s ?p ?o WHERE { ?s ?p ?o }")? {
                     let txt: Vec<String> = r
@@ -1047,7 +1078,7 @@ impl World {
             12 => k.keys().any(|e| matches!(e, Ent::Triple(_))),
             _ => {
                 obs.rows.iter().chain(exp.rows.iter()).any(|(es, _)| es.iter().any(|e| k.contains_key(e)))
-                    || (matches!(kind, 0 | 1 | 2 | 3 | 5 | 13 | 14) && k.keys().any(|e| !matches!(e, Ent::Triple(_))))
+                    || (matches!(kind, 0 | 1 | 2 | 3 | 5 | 13 | 14 | 15 | 16) && k.keys().any(|e| !matches!(e, Ent::Triple(_))))
             }
         };
         let in_tx = self.cur_tx[si].is_some();
@@ -1131,6 +1162,8 @@ pub fn read_kind_name(kind: u8) -> &'static str {
         12 => "sparql",
         13 => "label-scan-cypher",
         14 => "projection-y",
+        15 => "range-scan",
+        16 => "label-range-scan",
         _ => "other",
     }
 }
@@ -1139,6 +1172,9 @@ pub fn read_kind_name(kind: u8) -> &'static str {
 /// reported at the end if nothing worse happened, so that the driver counts the case under that finding.
 pub fn run_history(h: &History) -> CaseResult {
     let mut w = World::new(h.sessions, h.mode);
+    if h.index_x {
+        guard("create_property_index", || w.db.create_property_index("x"))?;
+    }
     let mut known: Vec<String> = Vec::new();
     for op in &h.ops {
         match w.step(op) {
@@ -1390,11 +1426,11 @@ pub fn run(r: &mut Run) {
     r.assumptions.push("mutations target only nodes the writer sees identically in model and engine (no foreign conflict), so a defect's effect is observed, not compounded".into());
 
     let max_ops = if r.is_thorough() { 120 } else { 40 };
-    r.subcheck("sessions", r.cases(20_000, 600_000), move || history_strategy(max_ops), run_history);
-    r.subcheck("kernel", r.cases(6000, 600_000), kernel_strategy, run_kernel);
+    r.subcheck("sessions", r.cases(100_000, 1_500_000), move || history_strategy(max_ops), run_history);
+    r.subcheck("kernel", r.cases(50_000, 2_000_000), kernel_strategy, run_kernel);
     r.subcheck(
         "chain",
-        r.cases(6000, 600_000),
+        r.cases(50_000, 2_000_000),
         || {
             (proptest::collection::vec((0u8..3, 0u8..3), 0..6), proptest::option::of(0u8..3), 0u8..12)
                 .prop_map(|(versions, delete, gc_min)| ChainCase { versions, delete, gc_min })
